@@ -70,14 +70,46 @@ var schedStrictWait bool
 // tryIfs finds the skip-if and abort-if of a try scheduler: if statements
 // whose condition reads procs[_].OperatorLogicOr and compares the result
 // variable.
+// expandBoolLocals substitutes single-definition boolean locals of a condition by their
+// defining expressions (nextIsOr := procs[next].OperatorLogicOr; failed := exitNum > 0), through
+// !, && and ||, so that a predicate is judged over the same leaves however it is spelled.
+func expandBoolLocals(info *types.Info, defs defMap, e ast.Expr, depth int) ast.Expr {
+	e = unparen(e)
+	if depth > 6 {
+		return e
+	}
+	switch x := e.(type) {
+	case *ast.Ident:
+		if o := info.ObjectOf(x); o != nil && o.Parent() != types.Universe {
+			if b, isB := o.Type().Underlying().(*types.Basic); isB && b.Info()&types.IsBoolean != 0 {
+				if ds := defs[o]; len(ds) == 1 && ds[0] != nil {
+					if _, isConst := constBool(info, ds[0]); !isConst {
+						return &ast.ParenExpr{X: expandBoolLocals(info, defs, ds[0], depth+1)}
+					}
+				}
+			}
+		}
+	case *ast.UnaryExpr:
+		if x.Op == token.NOT {
+			return &ast.UnaryExpr{OpPos: x.OpPos, Op: x.Op, X: expandBoolLocals(info, defs, x.X, depth+1)}
+		}
+	case *ast.BinaryExpr:
+		if x.Op == token.LAND || x.Op == token.LOR {
+			return &ast.BinaryExpr{X: expandBoolLocals(info, defs, x.X, depth+1), OpPos: x.OpPos, Op: x.Op, Y: expandBoolLocals(info, defs, x.Y, depth+1)}
+		}
+	}
+	return e
+}
+
 func tryIfs(info *types.Info, fd *ast.FuncDecl) (skipIf, abortIf *ast.IfStmt) {
+	tdefs := localDefs(info, fd.Body)
 	ast.Inspect(fd.Body, func(n ast.Node) bool {
 		is, ok := n.(*ast.IfStmt)
 		if !ok {
 			return true
 		}
 		readsOr := false
-		ast.Inspect(is.Cond, func(m ast.Node) bool {
+		ast.Inspect(expandBoolLocals(info, tdefs, is.Cond, 0), func(m ast.Node) bool {
 			if se, ok := m.(*ast.SelectorExpr); ok && se.Sel.Name == "OperatorLogicOr" {
 				readsOr = true
 			}
@@ -146,15 +178,63 @@ func (c *Ctx) checkTryPredicates(info *types.Info, fd *ast.FuncDecl, prefix stri
 		r := ev(cond)
 		return r, unk
 	}
+	pdefs := localDefs(info, fd.Body)
+	// the branch is taken ⇔ its own condition holds AND every enclosing / earlier-exit condition
+	// that speaks about the exit number or the || flag holds with the truth it has on the way
+	// there (`if exitNum < 1 { if procs[next].OperatorLogicOr {` is one predicate split in two)
+	relevant := func(e ast.Expr) bool {
+		r := false
+		ast.Inspect(e, func(m ast.Node) bool {
+			switch y := m.(type) {
+			case *ast.SelectorExpr:
+				if y.Sel.Name == "OperatorLogicOr" {
+					r = true
+				}
+			case *ast.Ident:
+				if resObj != nil && info.ObjectOf(y) == resObj {
+					r = true
+				}
+			}
+			return true
+		})
+		return r
+	}
+	effective := func(is *ast.IfStmt) func(e int64, or bool) (bool, string) {
+		own := expandBoolLocals(info, pdefs, is.Cond, 0)
+		type gf struct {
+			e     ast.Expr
+			truth bool
+		}
+		var outer []gf
+		for _, f := range factsOf(guardsAt(info, pathTo(fd.Body, is))) {
+			if x := expandBoolLocals(info, pdefs, f.E, 0); relevant(x) {
+				outer = append(outer, gf{x, f.True})
+			}
+		}
+		return func(e int64, or bool) (bool, string) {
+			got, unk := eval(own, e, or)
+			for _, g := range outer {
+				v, u := eval(g.e, e, or)
+				if u != "" {
+					unk = u
+				}
+				if v != g.truth {
+					got = false
+				}
+			}
+			return got, unk
+		}
+	}
 	check := func(is *ast.IfStmt, what string, want func(e int64, or bool) bool) {
 		if is == nil {
 			c.Viol("R05a", fn+":"+what, fd.Pos(), "no %s branch found in %s (an if over the exit number and procs[next].OperatorLogicOr)", what, fd.Name.Name)
 			return
 		}
 		bad := ""
+		evalEff := effective(is)
 		for e := int64(-1); e <= 3; e++ {
 			for _, or := range []bool{false, true} {
-				got, unk := eval(is.Cond, e, or)
+				got, unk := evalEff(e, or)
 				if unk != "" {
 					c.Undecided("R05a", fn+":"+what, is.Cond.Pos(), "leaf %q of the %s predicate is neither a comparison of the exit number with a constant nor procs[_].OperatorLogicOr", unk, what)
 					return
@@ -175,7 +255,13 @@ func (c *Ctx) checkTryPredicates(info *types.Info, fd *ast.FuncDecl, prefix stri
 		}
 		okIdx := true
 		defs := localDefs(info, fd.Body)
-		ast.Inspect(is.Cond, func(m ast.Node) bool {
+		var scan ast.Expr = expandBoolLocals(info, defs, is.Cond, 0)
+		for _, f := range factsOf(guardsAt(info, pathTo(fd.Body, is))) {
+			if x := expandBoolLocals(info, defs, f.E, 0); relevant(x) {
+				scan = &ast.BinaryExpr{X: scan, Op: token.LAND, Y: x}
+			}
+		}
+		ast.Inspect(scan, func(m ast.Node) bool {
 			se, ok := m.(*ast.SelectorExpr)
 			if !ok || se.Sel.Name != "OperatorLogicOr" {
 				return true
@@ -216,10 +302,11 @@ func (c *Ctx) checkTryPredicates(info *types.Info, fd *ast.FuncDecl, prefix stri
 		guarded := false
 		for _, f := range factsOf(guardsAt(info, st)) {
 			if b, ok := unparen(f.E).(*ast.BinaryExpr); ok && f.True && (b.Op == token.LSS || b.Op == token.GTR || b.Op == token.NEQ) {
-				if _, ok := isBuiltinCall(info, b.Y, "len"); ok {
+				// len(*procs), or a local holding it (n := len(*procs))
+				if _, ok := isBuiltinCall(info, pdefs.resolve1(info, b.Y), "len"); ok {
 					guarded = true
 				}
-				if _, ok := isBuiltinCall(info, b.X, "len"); ok {
+				if _, ok := isBuiltinCall(info, pdefs.resolve1(info, b.X), "len"); ok {
 					guarded = true
 				}
 			}
@@ -285,11 +372,18 @@ func (c *Ctx) checkTryResult(info *types.Info, fd *ast.FuncDecl, prefix string) 
 		if !ok || len(rs.Results) == 0 {
 			return true
 		}
+		// `return exitNum` is the naked return spelled out
+		if len(rs.Results) == 1 {
+			if id, isId := unparen(rs.Results[0]).(*ast.Ident); isId && info.ObjectOf(id) == resObj {
+				return true
+			}
+		}
 		st := pathTo(fd.Body, rs)
 		emptyGuard := false
+		rdefs := localDefs(info, fd.Body)
 		for _, f := range factsOf(guardsAt(info, st)) {
 			if x, op, k, ok := cmpNorm(info, f.E); ok && f.True {
-				if _, isLen := isBuiltinCall(info, x, "len"); isLen && samePredOnRange(intPred(op, k), func(v int64) bool { return v == 0 }, 0, 3) {
+				if _, isLen := isBuiltinCall(info, rdefs.resolve1(info, x), "len"); isLen && samePredOnRange(intPred(op, k), func(v int64) bool { return v == 0 }, 0, 3) {
 					emptyGuard = true
 				}
 			}
@@ -307,6 +401,7 @@ var tryCleanupRule = "R05e"
 func (c *Ctx) checkTryCleanup(info *types.Info, fd *ast.FuncDecl, prefix string) {
 	fn := prefix + fd.Name.Name
 	skipIf, abortIf := tryIfs(info, fd)
+	cdefs := localDefs(info, fd.Body)
 	need := []string{"Stdout.Close", "Stderr.Close", "Deregister"}
 	scan := func(body *ast.BlockStmt) (map[string]map[string]bool, string) {
 		// index expr string -> set of cleanup ops ; plus index of skip event
@@ -335,17 +430,29 @@ func (c *Ctx) checkTryCleanup(info *types.Info, fd *ast.FuncDecl, prefix string)
 				return true
 			}
 			idxOf := func(e ast.Expr) string {
-				for {
+				for k := 0; k < 8; k++ {
 					e = unparen(e)
 					switch x := e.(type) {
 					case *ast.SelectorExpr:
 						e = x.X
+					case *ast.UnaryExpr:
+						if x.Op != token.AND {
+							return ""
+						}
+						e = x.X
+					case *ast.Ident: // pointer local bound to one process: skipped := &(*procs)[i]
+						r := cdefs.resolve1(info, x)
+						if r == ast.Expr(x) {
+							return ""
+						}
+						e = r
 					case *ast.IndexExpr:
 						return c.src(x.Index)
 					default:
 						return ""
 					}
 				}
+				return ""
 			}
 			switch se.Sel.Name {
 			case "Close":
@@ -406,7 +513,7 @@ func (c *Ctx) checkTryCleanup(info *types.Info, fd *ast.FuncDecl, prefix string)
 			okRange := false
 			if loop.Cond != nil {
 				if b, ok := unparen(loop.Cond).(*ast.BinaryExpr); ok && b.Op == token.LSS && c.src(b.X) == idx {
-					if _, ok := isBuiltinCall(info, b.Y, "len"); ok {
+					if _, ok := isBuiltinCall(info, cdefs.resolve1(info, b.Y), "len"); ok {
 						okRange = true
 					}
 				}
@@ -466,6 +573,19 @@ func (c *Ctx) checkTryDispatch() {
 				// which scheduler + flag does this arm call, and is the result assigned to exitNum
 				sched, flag, assigned := "", "", false
 				ast.Inspect(cc, func(m ast.Node) bool {
+					// `runModeNormal(procs)` as a statement: the scheduler runs, its result is dropped
+					if es, isEs := m.(*ast.ExprStmt); isEs {
+						if call, ok := es.X.(*ast.CallExpr); ok {
+							if o := callee(info, call); o != nil && strings.HasPrefix(o.Name(), "runMode") {
+								sched = o.Name()
+								if len(call.Args) == 2 {
+									if b, ok := constBool(info, call.Args[1]); ok {
+										flag = fmt.Sprint(b)
+									}
+								}
+							}
+						}
+					}
 					as, isAs := m.(*ast.AssignStmt)
 					if isAs && len(as.Rhs) == 1 {
 						if call, ok := as.Rhs[0].(*ast.CallExpr); ok {
@@ -514,6 +634,23 @@ func (c *Ctx) checkTryDispatch() {
 	// compile's runmode strings
 	if fd, _ := c.MustFunc("R05d", "lang", "", "compile"); fd != nil {
 		n := 0
+		// the run-mode variable: the local that compile stores into every procs[i].RunMode
+		var rmObj types.Object
+		ast.Inspect(fd.Body, func(m ast.Node) bool {
+			if as, ok := m.(*ast.AssignStmt); ok && len(as.Lhs) == 1 && len(as.Rhs) == 1 {
+				if se, ok := as.Lhs[0].(*ast.SelectorExpr); ok && se.Sel.Name == "RunMode" {
+					if _, isIx := unparen(se.X).(*ast.IndexExpr); isIx {
+						if id, ok := unparen(as.Rhs[0]).(*ast.Ident); ok {
+							rmObj = info.ObjectOf(id)
+						}
+					}
+				}
+			}
+			return true
+		})
+		if rmObj == nil {
+			c.Undecided("R05d", "compile:runmode-variable", fd.Pos(), "compile does not store one local into procs[i].RunMode")
+		}
 		ast.Inspect(fd.Body, func(m ast.Node) bool {
 			cc, ok := m.(*ast.CaseClause)
 			if !ok || len(cc.List) != 1 {
@@ -532,7 +669,7 @@ func (c *Ctx) checkTryDispatch() {
 			got := ""
 			for _, st := range cc.Body {
 				if as, ok := st.(*ast.AssignStmt); ok && len(as.Lhs) == 1 && len(as.Rhs) == 1 {
-					if id, ok := as.Lhs[0].(*ast.Ident); ok && id.Name == "rm" {
+					if id, ok := as.Lhs[0].(*ast.Ident); ok && rmObj != nil && info.ObjectOf(id) == rmObj {
 						got = nameOf(as.Rhs[0])
 					}
 				}
@@ -622,10 +759,11 @@ func (c *Ctx) checkTryDispatch() {
 	// Process.Fork propagates p.RunMode / Scope.RunMode into the fork
 	if fd, _ := c.MustFunc("R05d", "lang", "Process", "Fork"); fd != nil {
 		n := 0
+		fdefs := localDefs(info, fd.Body)
 		ast.Inspect(fd.Body, func(m ast.Node) bool {
 			if as, ok := m.(*ast.AssignStmt); ok && len(as.Lhs) == 1 && len(as.Rhs) == 1 {
 				if l, ok := as.Lhs[0].(*ast.SelectorExpr); ok && l.Sel.Name == "RunMode" {
-					if r, ok := unparen(as.Rhs[0]).(*ast.SelectorExpr); ok && r.Sel.Name == "RunMode" {
+					if r, ok := fdefs.resolve1(info, as.Rhs[0]).(*ast.SelectorExpr); ok && r.Sel.Name == "RunMode" {
 						n++
 					}
 				}
